@@ -441,6 +441,23 @@ where
                 );
                 if enqueued {
                     self.piece_refs.push(piece);
+                } else {
+                    // The entry is dropped (larger than a block can hold, or no room left in the flush buffer). A copy
+                    // of an older version of the key must not be served in its place: treat the drop as a delete.
+                    let stats = self
+                        .indexer
+                        .insert_tombstone(piece.hash(), sequence)
+                        .map(|addr| InvalidStats {
+                            block: addr.block,
+                            size: bits::align_up(PAGE, addr.len as usize),
+                        });
+                    self.tombstone_infos.push(TombstoneInfo {
+                        tombstone: Tombstone {
+                            hash: piece.hash(),
+                            sequence,
+                        },
+                        stats,
+                    });
                 }
                 report(enqueued);
                 self.submit_queue_size.fetch_sub(estimated_size, Ordering::Relaxed);
